@@ -43,16 +43,20 @@ def same_tod_zone(p, r):
                   L(p._second_of_minute) == L(r._second_of_minute), C.z_same_zone(p, r))
 
 
-def job_months(ctx, mode, rep, n, ranges=None, pins=None, K=C.KWIDE):
+def job_months(ctx, mode, rep, n, ranges=None, pins=None, K=C.KWIDE, a24=False):
+    """a24: p is written in the 24:00 end-of-day form, i.e. it denotes 00:00 of the following day; the months are
+    counted from that day and the result reads 00:00:00"""
     data = ctx.data
     C.set_mode(data, mode)
     install_range_summary(data, mode)
+    if a24:
+        ranges = dict(ranges or {}, h=(24, 24), mi=(0, 0), se=(0, 0))
 
     def make(e):
-        return {"p": C.point_input(e, data, "", rep, K=K, hmax=23)}
+        return {"p": C.point_input(e, data, "", rep, K=K, hmax=24 if a24 else 23)}
 
     def pre(i):
-        return C.m_valid_point(mode, i["p"], rep, False)
+        return C.m_valid_point(mode, i["p"], rep, a24)
 
     def body(i):
         p = i["p"]
@@ -67,9 +71,18 @@ def job_months(ctx, mode, rep, n, ranges=None, pins=None, K=C.KWIDE):
         r, cal = out[1]
         if C.rep_of(r) != rep or not C.same_rep(p, r):
             return [("keeps the date representation", False)]
-        ey, em, ed = oracle_add_months(mode, cal[0], cal[1], cal[2], n)
-        obs = [("valid date of the mode", C.m_valid_point(mode, r, rep, False)),
-               ("time of day and offset preserved", same_tod_zone(p, r)),
+        cy, cm, cd = cal
+        tod = ("time of day and offset preserved", same_tod_zone(p, r))
+        if a24:
+            # the day after (oracle): 24:00 of a day is 00:00 of the next
+            dim = R.days_in_month(M, mode, cy, cm)
+            last = M.And(cd >= dim)
+            cy, cm, cd = (M.ite(M.And(last, cm == 12), cy + 1, cy), M.ite(last, M.ite(cm == 12, 1, cm + 1), cm),
+                          M.ite(last, 1, cd + 1))
+            tod = ("24:00 becomes 00:00:00 of the following day, offset preserved",
+                   z3.And(L(r._hour_of_day) == 0, L(r._minute_of_hour) == 0, L(r._second_of_minute) == 0, C.z_same_zone(p, r)))
+        ey, em, ed = oracle_add_months(mode, cy, cm, cd, n)
+        obs = [("valid date of the mode", C.m_valid_point(mode, r, rep, False)), tod,
                ("lands n months away on the clamped day",
                 L(C.m_daynum(mode, rep, C.fields_of(r, rep))) == L(R.daynum_cal(M, mode, ey, em, ed)))]
         if rep == "cal":
@@ -78,7 +91,7 @@ def job_months(ctx, mode, rep, n, ranges=None, pins=None, K=C.KWIDE):
         return obs
 
     def case_of(v, i):
-        return {"check": "months", "mode": mode, "rep": rep, "p": C.point_case(v, "", rep), "n": n}
+        return {"check": "months", "mode": mode, "rep": rep, "p": C.point_case(v, "", rep), "n": n, "a24": a24}
 
     def zsc(i):
         p = i["p"]
@@ -225,10 +238,12 @@ def replay(case, M_):
         if k == "months":
             n = case["n"]
             r = p + data.Duration(months=n)
-            n0 = C.py_daynum(mode, p)
+            is24 = p._hour_of_day == 24
+            n0 = C.py_daynum(mode, p) + (1 if is24 else 0)          # 24:00 is 00:00 of the following day
             y, m, d = R.py_cal_of_daynum(mode, n0)
             ey, em, ed = py_add_months(mode, y, m, d, n)
-            ok = (C.rep_of(r) == C.rep_of(p) and C.py_valid_point(mode, r) and _tod(r) == _tod(p) and
+            want_tod = (0, 0, 0) + tuple(_tod(p)[3:]) if is24 else _tod(p)
+            ok = (C.rep_of(r) == C.rep_of(p) and C.py_valid_point(mode, r) and tuple(_tod(r)) == tuple(want_tod) and
                   C.py_daynum(mode, r) == R.daynum_cal(P, mode, ey, em, ed))
             return not ok, "%s + P%dM = %s, expected the day %04d-%02d-%02d" % (
                 C.describe_point(p), n, C.describe_point(r), ey, em, ed)
@@ -274,6 +289,10 @@ def jobs(tier):
         for n in ((-13, -2, -1, 1, 2, 14) if (greg or th) else (-1, 1, 13)):
             for lo in (1, 123, 245):
                 J.append(("job_months", dict(mode=mode, rep="ord", n=n, ranges={"DOY": (lo, min(lo + 121, 366))})))
+        # start points written as 24:00 (= 00:00 of the following day)
+        for n in (-1, 1, 12):
+            J.append(("job_months", dict(mode=mode, rep="cal", n=n, a24=True)))
+        J.append(("job_months", dict(mode=mode, rep="ord", n=1, a24=True, ranges={"DOY": (300, 366)})))
         J.append(("job_years", dict(mode=mode, rep="cal", klo=-450, khi=450)))
         J.append(("job_years", dict(mode=mode, rep="ord", klo=-450, khi=450)))
         if greg or th:
@@ -309,7 +328,7 @@ INFO = {
                          "year counts": "calendar/ordinal: k in -450..450 symbolic, all modes; week dates: k in -30..30 for the six year residues (gregorian)",
                          "mixed": "gregorian: n = +-1 with symbolic years +-2, days +-2, hours +-30"},
                "thorough": {"months": "ordinal as gregorian in all modes", "week dates": "gregorian: 10 year residues, n in {-13,-1,1,14}; other modes as quick"}},
-    "outside": ["24:00 start points (normalised first; covered by C01)", "month counts beyond +-14", "fractional time fields"],
+    "outside": ["24:00 start points for year steps and week dates (month steps from 24:00 calendar / ordinal points are decided: n in {-1, 1, 12})", "month counts beyond +-14", "fractional time fields"],
     "assumptions": ["for ordinal and week points the oracle starts from the calendar date given by the real conversion (C03)",
                     "mixed durations: the exact, month and year steps used as reference are the real single-kind additions verified by C01 and by this check's own jobs"],
 }
